@@ -19,6 +19,7 @@
      RefResolves            create_branch / shallow_clone did not produce the referenced version
      DeleteRemovesOnlyOwn   delete_branch changed files of another owner
      DeleteRemovesAllOwn    delete_branch left files of the deleted branch behind
+     DeleteBranchSucceeds   delete_branch of a live branch returned an error
      OnlyOwnStorageTouched  any other step changed files of another owner
      RefListsMatch          list_branches / tags().list differ from the model
      WriteApplies / OpSucceeds   the step itself did not do what the model says
@@ -116,7 +117,7 @@ RD(obs, x, v) ==
   LET rs == {i \in 1..Len(obs.reads) : obs.reads[i].loc = x /\ obs.reads[i].v = v} IN
   IF rs = {} THEN MISSING
   ELSE LET r == obs.reads[CHOOSE i \in rs : TRUE] IN
-       IF r.res = "ok" THEN (IF r.mv = v /\ r.mbranch = x THEN RowSet(r.rows) ELSE GARBLED) ELSE ERR
+       IF r.res = "ok" THEN (IF r.mv = v /\ r.mbranch = (IF IsCloneLoc(x) THEN MAIN ELSE x) THEN RowSet(r.rows) ELSE GARBLED) ELSE ERR
 TreeOf(obs) == [k \in {<<obs.tree[i].dir, obs.tree[i].ext>> : i \in 1..Len(obs.tree)} |->
                   LET e == obs.tree[CHOOSE i \in 1..Len(obs.tree) : <<obs.tree[i].dir, obs.tree[i].ext>> = k]
                   IN <<e.n, e.names>>]
@@ -218,23 +219,30 @@ HistStep(e) ==
       \* 1. isolation / history of everything the model keeps
       changedKeys == {k \in kept : RD(obs, k[1], k[2]) # g[k]}
       \* 2. storage frame
-      foreign == {k \in Changed(tree, T2) : OwnerOf(k[1]) \notin AllowedOwners(st)}
+      \* (storage that an earlier delete left behind belongs to nobody: removing it later is not judged)
+      foreign == {k \in Changed(tree, T2) : OwnerOf(k[1]) \notin AllowedOwners(st) /\ OwnerOf(k[1]) \notin {OwnerKey(d) : d \in dirty}}
       leftover == IF op = "delete_branch" THEN {k \in DOMAIN T2 : OwnerOf(k[1]) = OwnerKey(st.name)} ELSE {}
-      frameBad == IF foreign = {} THEN {}
+      frameBad == IF foreign = {} \/ (op = "create_branch" /\ st.name \in dirty /\ ~ok) THEN {}
                   ELSE IF op = "delete_branch" THEN {ent("DeleteRemovesOnlyOwn", <<"other-branch-storage-removed", DeleteClass(st.name, liveB \ {st.name})>>)}
                   ELSE {ent("OnlyOwnStorageTouched", <<op, "">>)}
       leftBad == IF leftover = {} \/ ~ok THEN {} ELSE {ent("DeleteRemovesAllOwn", <<"storage-left-behind", DeleteClass(st.name, liveB \ {st.name})>>)}
+      \* docs/src/format/table/layout.md (Shallow Clone, step 5): "Source dataset ... can be garbage collected
+      \* independently" -- a shallow clone that loses inherited files to a cleanup of its source is documented
+      \* behaviour, and the property does not list a clone as a protected reader: counted, not reported.
+      exempt == {k \in changedKeys : op = "cleanup" /\ IsCloneLoc(k[1]) /\ k[1] \in DOMAIN anc /\ subj \in anc[k[1]]}
       isoBad == IF frameBad # {} /\ op = "delete_branch" THEN {}      \* reported once, as DeleteRemovesOnlyOwn
-                ELSE {ent(IF k[1] = subj THEN "OwnHistoryKept" ELSE "BranchIsolation", IsolationClass(st, subj, k)) : k \in changedKeys}
+                ELSE {ent(IF k[1] = subj THEN "OwnHistoryKept" ELSE "BranchIsolation", IsolationClass(st, subj, k)) : k \in changedKeys \ exempt}
       \* 3. the step itself
       dirtyCreate == op = "create_branch" /\ st.name \in dirty
       newOK == nk = <<>> \/ RD(obs, nk[1], nk[2]) = NewVal(st)
-      viaOther == "via" \in DOMAIN st /\ st.via # st.src
+      viaOther == "via" \in DOMAIN st /\ "src" \in DOMAIN st /\ st.via # st.src
       opBad == IF dirtyCreate /\ ~ok THEN {}
+               ELSE IF ~ok /\ op = "delete_branch"
+               THEN {ent("DeleteBranchSucceeds", <<"failed-after-removing-the-branch-entry", DeleteClass(st.name, liveB \ {st.name})>>)}
                ELSE IF ~ok THEN {ent(IF op \in {"create_branch", "clone"} /\ viaOther THEN "RefResolves" ELSE "OpSucceeds",
-                                     <<IF viaOther THEN "via-other-handle" ELSE "via-source-handle", "failed">>)}
+                                     <<IF viaOther THEN "via-other-handle" ELSE "via-source-handle", "">>)}
                ELSE IF ~newOK THEN {ent(IF op \in {"create_branch", "clone"} THEN "RefResolves" ELSE "WriteApplies",
-                                        <<IF viaOther THEN "via-other-handle" ELSE "via-source-handle", "wrong-content">>)}
+                                        <<IF viaOther THEN "via-other-handle" ELSE "via-source-handle", "">>)}
                ELSE {}
       stop == ~ok \/ ~newOK
       \* 4. model state after the step
@@ -273,18 +281,18 @@ HistStep(e) ==
   IN
   /\ bad' = AddBad(allBad)
   /\ g' = g2 /\ lat' = lat2 /\ liveB' = liveB2 /\ parB' = parB2 /\ anc' = anc2 /\ tags' = tags2
-  /\ dirty' = IF op = "delete_branch" /\ leftover # {} THEN dirty \cup {st.name}
-              ELSE IF op = "delete_branch" THEN dirty \ {st.name} ELSE dirty
+  /\ dirty' = {d \in dirty \cup (IF op = "delete_branch" THEN {st.name} ELSE {}) :
+                  d \notin liveB2 /\ \E k \in DOMAIN T2 : OwnerOf(k[1]) = OwnerKey(d)}
   /\ tree' = T2
   /\ aborted' = stop
   /\ cnt' = [cnt EXCEPT ![op] = @ + 1,
                         !["ok_steps"] = @ + (IF ok THEN 1 ELSE 0),
                         !["isolation_checks"] = @ + Cardinality(kept),
                         !["tag_checks"] = @ + Cardinality(DOMAIN tags2),
+                        !["info_clone_lost_files_to_source_cleanup"] = @ + Cardinality(exempt),
                         !["frame_checks"] = @ + Cardinality(DOMAIN tree \cup DOMAIN T2),
                         !["delete_with_related_names"] = @ + (IF op = "delete_branch" /\ CharRelated(st.name, liveB \ {st.name}) THEN 1 ELSE 0),
-                        !["via_other_handle"] = @ + (IF viaOther THEN 1 ELSE 0),
-                        !["scenarios_clean"] = @]
+                        !["via_other_handle"] = @ + (IF viaOther /\ op \in {"create_branch", "clone"} THEN 1 ELSE 0)]
   /\ UNCHANGED <<nmeta, scn>>
 
 HistNext ==
@@ -297,8 +305,8 @@ HistNext ==
   ELSE HistStep(e)
 
 Counters == {"names", "branch_ok", "tag_ok", "branch_valid", "tag_valid",
-             "scenarios", "scenarios_clean", "skipped_steps", "ok_steps", "isolation_checks", "tag_checks", "frame_checks",
-             "delete_with_related_names", "via_other_handle",
+             "scenarios", "skipped_steps", "ok_steps", "isolation_checks", "tag_checks", "frame_checks",
+             "delete_with_related_names", "via_other_handle", "info_clone_lost_files_to_source_cleanup",
              "init", "append", "delete", "cleanup", "create_branch", "delete_branch", "create_tag", "update_tag",
              "delete_tag", "clone"}
 Init == /\ l = 1 /\ bad = <<>> /\ cnt = [c \in Counters |-> 0]
